@@ -33,6 +33,9 @@ class GenCfg:
         self.spellings = False
         self.p_qspell = 0.06
         self.p_empty = 0.05     # zero-length outputs
+        self.p_raise_builtin = 0.3   # user exceptions of builtin classes (FileNotFoundError, KeyError, ...)
+        self.p_qprop = 0.05          # queries whose documented OSError leaves the function uncaught
+        self.p_rename = 0.06    # function names from the library's own vocabulary
         self.__dict__.update(kw)
 
 
@@ -42,6 +45,9 @@ KWARGS_POOL = [{}, {}, {}, {'k': 1}, {'k': 2}, {'j': [1]}, {'k': None}, {'k': 0}
 
 
 TOOLONG = 'y' * 256
+RAISE_CLASSES = ['FileNotFoundError', 'IsADirectoryError', 'NotADirectoryError', 'PermissionError',
+                 'FileExistsError', 'OSError', 'KeyError', 'ValueError', 'RuntimeError', 'TypeError', 'LookupError',
+                 'StopIteration', 'EOFError', 'UnicodeError', 'NotImplementedError']
 QSPELL = ['bytes', 'pathlike', 'dslash', 'dot', 'dotdot', 'trail', 'rel']
 
 
@@ -74,6 +80,10 @@ def gen_query(rng, cfg):
     if rng.random() < cfg.p_qspell:
         # the same path spelled differently (bytes, PathLike, //, /./, x/../, trailing /, relative)
         q.append(rng.choice(QSPELL))
+    if rng.random() < cfg.p_qprop:
+        if len(q) < 5:
+            q.append(None)
+        q.append('prop')
     return q
 
 
@@ -135,7 +145,10 @@ def gen_program(rng, cfg):
                     body.insert(rng.randint(0, len(body)),
                                 ['write', '', {'empty': True}] if rng.random() < cfg.p_empty else ['write', ''])
             if rng.random() < cfg.p_raise:
-                body.insert(rng.randint(0, len(body)), ['raise', name])
+                st = ['raise', name]
+                if rng.random() < cfg.p_raise_builtin:
+                    st.append(rng.choice(RAISE_CLASSES))
+                body.insert(rng.randint(0, len(body)), st)
             elif rng.random() < cfg.p_nonjson:
                 body.append(['ret', 'nonjson'])
             fd['body'] = body
@@ -147,8 +160,43 @@ def gen_program(rng, cfg):
             roots.append(rb)
         program = {'funcs': funcs, 'roots': roots}
         if all(targets_ok(program, rb) for rb in roots):
+            if rng.random() < cfg.p_rename:
+                rename_funcs(program, rng)
             return program
     raise RuntimeError('could not generate a program respecting the target obligation')
+
+
+# function names taken from the library's own vocabulary and other awkward strings: a function name is
+# an opaque string, whatever it happens to coincide with
+ODD_FUNC_NAMES = ['read', 'walk', 'list_dir', 'is_file', 'is_dir', 'exists', 'get_size', 'build_file',
+                  'subbuild', 'build', 'clean', '', ' ', 'é', 'a/b', '0', 'None', 'F 1', 'cacheFileVersion',
+                  'createdDirs', 'funcVersions', 'rootOperations', 'type', 'args', 'kwargs', 'raised']
+
+
+def rename_funcs(program, rng):
+    funcs = program['funcs']
+    names = list(funcs)
+    k = rng.randint(1, min(3, len(names)))
+    new = rng.sample(ODD_FUNC_NAMES, k)
+    ren = dict(zip(rng.sample(names, k), new))
+
+    def fix(body):
+        for st in body:
+            if st[0] == 'bf':
+                st[2] = ren.get(st[2], st[2])
+            elif st[0] == 'sb':
+                st[1] = ren.get(st[1], st[1])
+            elif st[0] == 'ifq':
+                fix(st[3])
+                fix(st[4])
+            elif st[0] == 'par':
+                for b in st[1]:
+                    fix(b)
+    for fd in funcs.values():
+        fix(fd['body'])
+    for rb in program['roots']:
+        fix(rb)
+    program['funcs'] = {ren.get(n, n): fd for n, fd in funcs.items()}
 
 
 def program_shape(program):
